@@ -12,8 +12,12 @@ PLAN = {
     "C01": {"level": "exploration", "units": [
         unit("cyc", "TestC01", 3000, 40000, replay="TestReplayC01"),
         unit("cyc", "TestC01Hist", 1200, 15000, seed_off=200)]},
-    "C02": {"level": "exploration", "units": [unit("disc", "TestC02", 700, 12000, replay="TestReplayC02", shrinktime="30s")]},
-    "C03": {"level": "exploration", "units": [unit("loop", "TestC03", 500, 8000, replay="TestReplayC03", shrinktime="30s")]},
+    "C02": {"level": "exploration", "units": [
+        unit("disc", "TestC02", 700, 12000, replay="TestReplayC02", shrinktime="30s"),
+        unit("side", "TestC02Listener", 300, 3000, replay="TestReplayC02Listener", seed_off=900)]},
+    "C03": {"level": "exploration", "units": [
+        unit("loop", "TestC03", 500, 8000, replay="TestReplayC03", shrinktime="30s"),
+        unit("expl", "TestC03Flood", 3, 8, replay="TestReplayC03Flood", seed_off=900, shrinktime="20s")]},
     "C04": {"level": "exploration", "units": [
         unit("cyc", "TestC04", 3000, 40000, replay="TestReplayC04"),
         unit("cyc", "TestC04Hist", 1200, 15000, seed_off=200)]},
@@ -26,7 +30,8 @@ PLAN = {
         unit("cyc", "TestC07Hist", 1200, 15000, seed_off=200)]},
     "C08": {"level": "exploration", "units": [
         unit("cyc", "TestC08", 3000, 40000, replay="TestReplayC08"),
-        unit("cyc", "TestC08Hist", 1200, 15000, seed_off=200)]},
+        unit("cyc", "TestC08Hist", 1200, 15000, seed_off=200),
+        unit("cfgh", "TestC08Reload", 150, 2000, replay="TestReplayC08Reload", seed_off=900)]},
     "C09": {"level": "fault_enumeration", "units": [
         unit("side", "TestC09RoundTrip", 300, 4000, replay="TestReplayC09"),
         unit("side", "TestC09Torn", 12, 150, shrinktime="30s", seed_off=300),
